@@ -568,19 +568,39 @@ def mode_converge(a, inp):
         from allmydata.mutable.publish import MutableData
         nhist = [0]
 
-        def read_foreign():
-            nhist[0] += 1
+        foreign = {}
+
+        def make_foreign():
             saved = dict(g.params)
             g.params["k"], g.params["n"] = 3, 5
-            foreign_nm = g.make_nodemaker()
-            if nhist[0] % 2:
-                cap = g.run(foreign_nm.create_mutable_file(MutableData(b"published by someone else, 3-of-5"))).get_readonly_uri()
-            else:
-                cap = g.run(foreign_nm.create_new_mutable_directory()).get_readonly_uri()
-            g.params.clear()
-            g.params.update(saved)
-            node = g.make_nodemaker().create_from_cap(cap)
-            g.run(node.list() if hasattr(node, "list") else node.download_best_version())
+            try:
+                foreign_nm = g.make_nodemaker()
+                for what in ("file", "dir"):
+                    for _try in range(40):      # (the harness's key pool is finite: a key whose slot still exists is skipped)
+                        try:
+                            if what == "file":
+                                foreign[what] = g.run(foreign_nm.create_mutable_file(MutableData(b"published by someone else, 3-of-5"))).get_readonly_uri()
+                            else:
+                                foreign[what] = g.run(foreign_nm.create_new_mutable_directory()).get_readonly_uri()
+                            break
+                        except Exception:
+                            continue
+            finally:
+                g.params.clear()
+                g.params.update(saved)
+
+        def read_foreign():
+            nhist[0] += 1
+            what = "file" if nhist[0] % 2 else "dir"
+            for attempt_ in range(2):
+                if what not in foreign:
+                    make_foreign()
+                node = g.make_nodemaker().create_from_cap(foreign[what])
+                try:
+                    g.run(node.list() if hasattr(node, "list") else node.download_best_version())
+                    return
+                except Exception:           # the shares were wiped by a fault scenario in between: publish them again
+                    foreign.clear()
         for pi, pair in enumerate(inp["pairs"]):
             k1 = json.dumps(pair["u1"], sort_keys=True)
             rerun = (pair["u1"] == pair["u2"]) or pair["u1"]["secret"] == "none"
